@@ -111,3 +111,29 @@ CHECKS["C06"] = dict(
     technique="property-based testing (rapid state machine) against a reachability model of the graph",
     design_ref="DESIGN.md section 4, C06",
 )
+
+CHECKS["C10"] = dict(
+    pkg="c10", level="exploration",
+    props=[dict(name="TestPropRoundTrip", quick=48000, thorough=16 * 400000, shards_quick=8, shards_thorough=16, timeout_thorough=7200),
+           dict(name="TestPropDiffMerge", quick=48000, thorough=16 * 400000, shards_quick=8, shards_thorough=16, timeout_thorough=7200)],
+    rule="values of a harness struct with every supported field kind (all int/uint widths, float32/64, bool, string, "
+         "pointers to scalars, *struct and struct (flat), eight slice kinds, arrays, four string-keyed map kinds, edge "
+         "scalars/slice/pointer, id/parent, child list on decode): integers over the kind's range within +-(2^53-1), floats "
+         "from bit patterns (no NaN), slices of 0-12 and (for one field in about 5% of values) 13-1000 elements, nil/empty/"
+         "non-empty maps and pointers. Round trip: Decode(shuffle(Encode(v))) equals v modulo nil-vs-empty. Diff/merge: a "
+         "chain of 1-3 steps, each Merge(DiffPoints(prev,next)) into the running value must give next; next is a neighbour "
+         "of prev (slice shrink/grow/zeroed element, map entry removed/added, pointer nil-ness flipped, fields redrawn) or "
+         "independent. Non-trivial: round trip = a nil pointer plus a non-empty slice or map plus children; diff = the pair "
+         "differs in a slice length, a map key set or the nil-ness of a pointer.",
+    assumptions=["NaN is not comparable and not generated", "map key \"\" is key \"0\" by the documented identity rule and is excluded",
+                 "DiffPoints covers node points only, so pairs agree on id, parent and edge fields",
+                 "slices of pointers are not among the documented kinds",
+                 "chains: the value obtained by an earlier merge is used as 'the decoded first value' of the next step "
+                 "(that is how clients use MergePoints); the comparison is on observable values only"],
+    level_text="Generated values and before/after pairs (rapid) against the round-trip and diff/merge relations; pure functions, "
+               "so hundreds of thousands of cases per run.",
+    level_note="Trusted: reflect.DeepEqual modulo nil-vs-empty as the equality; the harness struct family as representative of "
+               "'supported configuration types'.",
+    technique="property-based testing (rapid): round-trip and diff/merge relations over generated typed values",
+    design_ref="DESIGN.md section 4, C10",
+)
